@@ -34,7 +34,7 @@ func (g *graphGen) scalarTypeIdx(below int) []int {
 	var out []int
 	for i := 0; i < below && i < len(g.kinds); i++ {
 		switch g.kinds[i] {
-		case "keystring", "regex", "string", "integer", "enum", "float":
+		case "keystring", "regex", "string", "integer", "enum", "float", "orlit":
 			out = append(out, i)
 		}
 	}
@@ -210,7 +210,16 @@ func Graph(r *mon.Rng, maxTypes int) *model.Schema {
 	g.total = n
 	for i := 0; i < n; i++ {
 		var t *model.TypeDef
-		kind := mon.Pick(r, []string{"object", "object", "object", "array", "keystring", "string", "integer", "integer", "or", "or", "regex", "enum", "float", "uarray", "uarray"})
+		kind := mon.Pick(r, []string{"object", "object", "object", "array", "keystring", "string", "integer", "integer", "or", "or", "regex", "enum", "float", "uarray", "uarray", "orlit", "orlit"})
+		if kind == "orlit" {
+			ok := false
+			for _, j := range g.scalarTypeIdx(i) {
+				ok = ok || g.kinds[j] != "regex"
+			}
+			if !ok {
+				kind = "float"
+			}
+		}
 		if kind == "uarray" && len(g.scalarTypeIdx(i)) < 2 {
 			kind = "integer"
 		}
@@ -228,6 +237,12 @@ func Graph(r *mon.Rng, maxTypes int) *model.Schema {
 					q := tname(mon.Pick(r, objs))
 					if q != ps[0] {
 						ps = append(ps, q)
+					}
+					if len(objs) > 2 && r.Bool() {
+						q3 := tname(mon.Pick(r, objs))
+						if q3 != ps[0] && q3 != ps[len(ps)-1] {
+							ps = append(ps, q3)
+						}
 					}
 				}
 				// additionalProperties of child and parents must not conflict: drop the child's
@@ -290,6 +305,33 @@ func Graph(r *mon.Rng, maxTypes int) *model.Schema {
 			}
 			t = &model.TypeDef{Name: tname(i), Root: arr}
 			kind = "uarray"
+		case "orlit":
+			// a literal example with an or rule naming scalar-valued types (other such types
+			// included: the same type is then reached on several branches)
+			sc := g.scalarTypeIdx(i)
+			var first int
+			for {
+				first = mon.Pick(r, sc)
+				if g.kinds[first] != "regex" {
+					break
+				}
+			}
+			ex := g.s.Types[first].Root
+			items := []model.OrItem{model.OrName(tname(first))}
+			for n := r.Range(1, 2); n > 0; n-- {
+				if r.Chance(1, 4) {
+					items = append(items, model.OrName(mon.Pick(r, []string{"string", "boolean", "integer", "null"})))
+				} else if j := mon.Pick(r, sc); j != first {
+					items = append(items, model.OrName(tname(j)))
+				}
+			}
+			if len(items) == 1 {
+				items = append(items, model.OrName("boolean"))
+			}
+			if r.Bool() {
+				items[0], items[len(items)-1] = items[len(items)-1], items[0]
+			}
+			t = &model.TypeDef{Name: tname(i), Root: (&model.Node{Kind: ex.Kind, Lit: ex.Lit, KeyPos: -1}).With(model.ROr(items...))}
 		case "integer":
 			if r.Bool() {
 				t = &model.TypeDef{Name: tname(i), Root: model.Int("3").With(model.RNum("min", "0"))}
@@ -380,17 +422,25 @@ func allOfMotif(r *mon.Rng) *model.Schema {
 	if r.Bool() {
 		n.Rules = []*model.Rule{model.RAllOf("@t1", "@t3")}
 	}
+	e := model.Obj(model.P("e", model.Int("6")))
+	if r.Chance(1, 3) {
+		e = model.Obj().With(&model.Rule{Name: "additionalProperties", IsStr: true, Str: "any"})
+		e.Rules = nil // an empty parent
+	}
+	three := [][]string{{"@t0", "@t1", "@t5"}, {"@t5", "@t0", "@t1"}, {"@t1", "@t5", "@t0"}, {"@t0", "@t5", "@t1"}}[r.Intn(4)]
+	f := model.Obj(model.P("f", opt(model.Int("7")))).With(model.RAllOf(three...))
 	s := &model.Schema{Types: []*model.TypeDef{
 		{Name: "@t0", Root: b}, {Name: "@t1", Root: cc}, {Name: "@t2", Root: d}, {Name: "@t3", Root: m}, {Name: "@t4", Root: n},
+		{Name: "@t5", Root: e}, {Name: "@t6", Root: f},
 	}}
 	if r.Chance(1, 4) {
 		// declaration order: children before their parents
 		s.Types[0], s.Types[1], s.Types[2], s.Types[3], s.Types[4] = s.Types[4], s.Types[3], s.Types[2], s.Types[1], s.Types[0]
 	}
 	ref := func() *model.Node {
-		x := tname(r.Intn(5))
+		x := tname(r.Intn(7))
 		if r.Chance(1, 5) {
-			if y := tname(r.Intn(5)); y != x {
+			if y := tname(r.Intn(7)); y != x {
 				return model.Ref(x, y)
 			}
 		}
